@@ -289,43 +289,58 @@ func (c *Ctx) ruleImportResolution() {
 	pf := P.LookupFunc("annotations", "parseImplementsAnnotation")
 	if pf != nil {
 		var sawTrue, sawFalseFound, sawFalseLocal bool
-		allInstrs(pf, func(b *ssa.BasicBlock, ins ssa.Instruction) {
-			st, ok := ins.(*ssa.Store)
-			if !ok {
-				return
-			}
+		allOK := true
+		fieldOf := func(st *ssa.Store, name string) bool {
 			fa, ok := st.Addr.(*ssa.FieldAddr)
-			if !ok || typeStr(deref(fa.X.Type())) != "annotations.ImplementsAnnotation" {
-				return
-			}
-			if deref(fa.X.Type()).Underlying().(*types.Struct).Field(fa.Field).Name() != "PackageNotFound" {
-				return
-			}
-			cv, isC := constBool(st.Val)
-			if !isC {
-				return
-			}
-			g := P.BlockGuards(b)
-			findNil := func(pos bool) bool {
-				return hasLit(g, func(l Lit) bool {
-					v := nilCheckedValue(l)
-					return v != nil && l.Pos == pos && strings.HasPrefix(P.Desc(v), "call((*util.ImportMap).Find;")
-				})
-			}
-			noQual := func(pos bool) bool {
-				return hasLit(g, func(l Lit) bool {
-					return l.Kind == "eq" && l.Pos == pos && (P.Desc(l.X) == `const("")` || P.Desc(l.Y) == `const("")`) && strings.Contains(P.Desc(l.X)+P.Desc(l.Y), "annotations.ImplementsAnnotation.PackageName")
-				})
-			}
-			switch {
-			case cv && findNil(true) && noQual(false):
-				sawTrue = true
-			case !cv && findNil(false) && noQual(false):
-				sawFalseFound = true
-			case !cv && noQual(true):
-				sawFalseLocal = true
+			return ok && typeStr(deref(fa.X.Type())) == "annotations.ImplementsAnnotation" && deref(fa.X.Type()).Underlying().(*types.Struct).Field(fa.Field).Name() == name
+		}
+		// the qualifier: what is stored as PackageName
+		quals := map[string]bool{}
+		allInstrs(pf, func(b *ssa.BasicBlock, ins ssa.Instruction) {
+			if st, ok := ins.(*ssa.Store); ok && fieldOf(st, "PackageName") {
+				quals[P.Desc(st.Val)] = true
 			}
 		})
+		allInstrs(pf, func(b *ssa.BasicBlock, ins ssa.Instruction) {
+			st, ok := ins.(*ssa.Store)
+			if !ok || !fieldOf(st, "PackageNotFound") {
+				return
+			}
+			// every way the stored flag is computed - in place or by a helper - with the conditions of that way
+			for _, vc := range P.ValueCases(st.Val, 0) {
+				cv, isC := constBool(vc.Val)
+				if !isC {
+					allOK = false
+					continue
+				}
+				g := append(append([]Lit{}, vc.Guards...), P.BlockGuards(b)...)
+				findNil := func(pos bool) bool {
+					return hasLit(g, func(l Lit) bool {
+						return nilCheckedValue(l) != nil && l.Pos == pos && strings.HasPrefix(litOther(l, "nil"), "call((*util.ImportMap).Find;")
+					})
+				}
+				noQual := func(pos bool) bool {
+					return hasLit(g, func(l Lit) bool {
+						other := litOther(l, `const("")`)
+						if other == "" || l.Pos != pos {
+							return false
+						}
+						return strings.Contains(other, "annotations.ImplementsAnnotation.PackageName") || quals[other]
+					})
+				}
+				switch {
+				case cv && findNil(true) && noQual(false):
+					sawTrue = true
+				case !cv && findNil(false) && noQual(false):
+					sawFalseFound = true
+				case !cv && noQual(true):
+					sawFalseLocal = true
+				default:
+					allOK = false
+				}
+			}
+		})
+		sawTrue = sawTrue && allOK
 		c.check(sawTrue && sawFalseFound && sawFalseLocal, "IMPL01-WHEN", "annotations.parseImplementsAnnotation", P.Pos(pf.Pos()), "PackageNotFound iff a qualifier is given and imports.Find(qualifier) == nil", fmt.Sprintf("PackageNotFound is not set exactly when a given qualifier is unresolved [true-case:%v found-case:%v local-case:%v]", sawTrue, sawFalseFound, sawFalseLocal))
 	}
 }
